@@ -45,6 +45,58 @@ func (s SchemaSchema) Steps() map[string]Step {
 	return result
 }
 
+// prepareReceived links and checks every scope of a schema that was rebuilt from a description, see
+// prepareReceivedScope. A plugin's schema has nobody to supply external namespaces, so references that
+// are still unlinked afterwards are an error as well.
+func (s SchemaSchema) prepareReceived() error {
+	prepare := func(what string, scope Scope) error {
+		scopeSchema, ok := scope.(*ScopeSchema)
+		if !ok || scopeSchema == nil {
+			return &ConstraintError{Message: fmt.Sprintf("%s is not a scope", what)}
+		}
+		if err := prepareReceivedScope(scopeSchema); err != nil {
+			return ConstraintErrorAddPathSegment(err, what)
+		}
+		if err := scopeSchema.ValidateReferences(); err != nil {
+			return &ConstraintError{Message: fmt.Sprintf("%s: %v", what, err)}
+		}
+		return nil
+	}
+	for stepID, step := range s.StepsValue {
+		if step == nil {
+			return &ConstraintError{Message: fmt.Sprintf("step %s is missing", stepID)}
+		}
+		if err := prepare("input of step "+stepID, step.InputValue); err != nil {
+			return err
+		}
+		for outputID, output := range step.OutputsValue {
+			if output == nil {
+				return &ConstraintError{Message: fmt.Sprintf("output %s of step %s is missing", outputID, stepID)}
+			}
+			if err := prepare("output "+outputID+" of step "+stepID, output.SchemaValue); err != nil {
+				return err
+			}
+		}
+		for signalID, signal := range step.SignalHandlersValue {
+			if signal == nil {
+				return &ConstraintError{Message: fmt.Sprintf("signal handler %s of step %s is missing", signalID, stepID)}
+			}
+			if err := prepare("signal handler "+signalID+" of step "+stepID, signal.DataSchemaValue); err != nil {
+				return err
+			}
+		}
+		for signalID, signal := range step.SignalEmittersValue {
+			if signal == nil {
+				return &ConstraintError{Message: fmt.Sprintf("signal emitter %s of step %s is missing", signalID, stepID)}
+			}
+			if err := prepare("signal emitter "+signalID+" of step "+stepID, signal.DataSchemaValue); err != nil {
+				return err
+			}
+		}
+	}
+	return nil
+}
+
 func (s SchemaSchema) applyNamespace() {
 	for _, step := range s.StepsValue {
 		// We can apply an empty scope because the scope does not need another scope.
